@@ -29,14 +29,21 @@ RULE = ("real AdaptationManager (fresh per case) over hierarchies built with typ
         "distinct = distinct output line")
 TRUSTED = ["issubclass and inspect.getmro are computed by CPython from the real classes and sent to the model as tables "
            "(recomputed and compared in run_impl)",
-           "source tie (translate/pyadapt.py -> Generated/AdaptProg.lean, Model/PyA.lean, C17_search_is_source): the source "
-           "text of provides_protocol, mro_distance_to_protocol, _adapt, _get_applicable_offers and "
-           "_by_weight_then_from_protocol_specificity is interpreted; PARAMETERS of the interpreter: issubclass and "
+           "source tie (translate/pyadapt.py -> Generated/AdaptProg.lean, Model/PyA.lean, C17_search_is_source, "
+           "C17_adapt_is_source, C17_supports_is_source, C17_register_is_source): the source "
+           "text of provides_protocol, mro_distance_to_protocol, _adapt, _get_applicable_offers, "
+           "_by_weight_then_from_protocol_specificity, adapt, supports_protocol and register_offer is interpreted "
+           "(adapt's default value and the singletons AdaptationError / _MISSING are compared by identity; the text of the "
+           "AdaptationError message is not observed, only that building it cannot fail; "
+           "self._adaptation_offers.setdefault(name, []) yields an ALIAS of the bucket; register_factory / "
+           "register_provides / AdaptationOffer's name resolution are NOT translated: offer.from_protocol_name is the "
+           "model's Offer.key); PARAMETERS of the interpreter: issubclass and "
            "inspect.getmro(t)[1:] (tables), self._adaptation_offers.items() (the registry in dict order, keys opaque), "
            "type(adaptee), offer.factory (factory table, call ordinal = number of factory calls so far); MODELLED "
            "BUILTINS: itertools.count/next (counter from 0), list.sort(key=cmp_to_key(f)) = pySort with x<y := f(x,y)<0 "
            "(stuck if f does not return an int), heappush/heappop = sorted list by the int triple in the first tuple "
-           "component (equal triples compare as not-less; they cannot occur: the counter is unique), tuple/list displays, "
+           "component (comparing two entries with EQUAL triples is stuck; proved never to be asked: the counters in the "
+           "queue stay below the next counter value, invariant Rel.hlt through the interpreted while loop), tuple/list displays, "
            "unpacking, for-else/break, while (fuel), is / is not / not in, + on ints and lists; lists have value "
            "semantics (the translator rejects aliasing of a mutated list); the tie holds for registries without empty "
            "buckets (C17_registry_nonempty: what register_offer builds)",
